@@ -38,7 +38,8 @@ TECHNIQUE = ("static analysis: path enumeration of the context propagators again
 LEVEL_TEXT = ("Decided: the structural clauses X1, A1, P1, P2, D1, K1, M1, R1 (see the module docstring).  NOT decided "
               "and not claimed: semantic equivalence of each reformulation over all models (linearisation "
               "coefficients of and/or/min/max/abs/if-then-else/count, unary encodings, SOS2/PL encodings, bound "
-              "preprocessing, term canonicalisation), the objective value clause.")
+              "preprocessing, term canonicalisation), the objective value clause."
+              "  Also decided (added after the seeded rounds): the point form of a piecewise-linear term given by slopes lies on the term's function (evaluated on sample breakpoint lists).")
 LEVEL_NOTE = "Trusted: clang 14 front end/CFG, tool/mpx.cc, the rule module with its reference tables."
 DESIGN_REF = "DESIGN.md section 4, C01"
 EXPLANATION = "Unit: the visitor flat-converter unit (all converters instantiated for the mock driver).  See the module docstring."
